@@ -10,6 +10,15 @@ The profile is preserved by every commit, so when nothing is pending any more th
 namespace Um.Broker.Scale
 open Um Um.Slots Um.Broker
 
+/-- the part of the profile that does not mention disjointness -/
+structure ProfileCore (T : Nat → Nat) (N : Nat) (c : Cluster) : Prop where
+  proj : ∀ i ch, c.chunks[i]? = some ch →
+    proj ch.stable0 ch.mig0 = T (i * 2 + 0) ∧ proj ch.stable1 ch.mig1 = T (i * 2 + 1)
+  tail : ∀ i ch, c.chunks[i]? = some ch → N ≤ i → ch.stable0 = none ∧ ch.stable1 = none
+  dst : ∀ m ∈ c.migs, m.mm.dstChunk < N
+  len : N ≤ c.chunks.length
+  asc : ∀ ch ∈ c.chunks, (∀ rl, ch.stable0 = some rl → Asc rl) ∧ (∀ rl, ch.stable1 = some rl → Asc rl)
+
 structure Profile (T : Nat → Nat) (N : Nat) (c : Cluster) : Prop where
   disj : ProjInv c
   proj : ∀ i ch, c.chunks[i]? = some ch →
@@ -18,6 +27,13 @@ structure Profile (T : Nat → Nat) (N : Nat) (c : Cluster) : Prop where
   dst : ∀ m ∈ c.migs, m.mm.dstChunk < N
   len : N ≤ c.chunks.length
   asc : ∀ ch ∈ c.chunks, (∀ rl, ch.stable0 = some rl → Asc rl) ∧ (∀ rl, ch.stable1 = some rl → Asc rl)
+
+theorem Profile.core {T : Nat → Nat} {N : Nat} {c : Cluster} (h : Profile T N c) : ProfileCore T N c :=
+  ⟨h.proj, h.tail, h.dst, h.len, h.asc⟩
+
+theorem ProfileCore.withDisj {T : Nat → Nat} {N : Nat} {c : Cluster} (h : ProfileCore T N c) (hd : ProjInv c) :
+    Profile T N c :=
+  ⟨hd, h.proj, h.tail, h.dst, h.len, h.asc⟩
 
 theorem asc_of_map_compact {o : Option RangeList} {rl : RangeList} (h : o.map compact = some rl) : Asc rl := by
   cases o with
@@ -138,7 +154,7 @@ theorem fullChunks_of_get (m : Nat) (l : List Chunk) (i0 : Nat)
     rw [e] at this; exact this
 
 /-- a finished profile whose first `N` chunks carry the quotas of `2N` masters is balanced -/
-theorem balanced_of_profile {T : Nat → Nat} {N : Nat} {c : Cluster} (hprof : Profile T N c)
+theorem balanced_of_core {T : Nat → Nat} {N : Nat} {c : Cluster} (hprof : ProfileCore T N c)
     (hidle : c.migs = []) (hN : 0 < N) (hsz : N * 2 ≤ SLOT_NUM)
     (hT : ∀ idx, idx < N * 2 → T idx = quota (N * 2) idx) :
     Balanced c ∧ BalancedShape c.chunks N := by
@@ -180,5 +196,11 @@ theorem balanced_of_profile {T : Nat → Nat} {N : Nat} {c : Cluster} (hprof : P
       rw [List.getElem?_drop] at hj
       exact hprof.tail (N + j) ch hj (by omega)
   exact ⟨⟨(Cluster.isMigrating_eq_false_iff c).mpr hidle, N, hN, hshape⟩, hshape⟩
+
+theorem balanced_of_profile {T : Nat → Nat} {N : Nat} {c : Cluster} (hprof : Profile T N c)
+    (hidle : c.migs = []) (hN : 0 < N) (hsz : N * 2 ≤ SLOT_NUM)
+    (hT : ∀ idx, idx < N * 2 → T idx = quota (N * 2) idx) :
+    Balanced c ∧ BalancedShape c.chunks N :=
+  balanced_of_core hprof.core hidle hN hsz hT
 
 end Um.Broker.Scale
